@@ -68,6 +68,35 @@ func c14Cases(tier string) []chainCase {
 				return "", ""
 			}})
 	}
+	// nodes staked before the non-custodial upgrade have no output address: nobody but the operator may edit them,
+	// in particular not a key that names ITSELF as the new output address in the message it signs
+	cust := defaultEnv()
+	cust.Genesis, cust.Setup = "custodial-nodes", nil
+	for _, k := range []string{"X", "A2", "N2", "O1"} {
+		for _, val := range []string{"3000000", "4000000"} {
+			k, val := k, val
+			t := tx("node_stake", k, "node", "N1", "value", val, "chains", "0001", "output", k)
+			// the signer is a declared signer of its own message, so the ante handler charges it the fee; the
+			// message itself must be refused and the node record, pool and every other balance stay untouched
+			cases = append(cases, chainCase{Name: "env2/node-edit-stake-custodial/output-and-signer-" + k + "/value-" + val, Class: "signer-other", Env: cust,
+				Ref: []BlockSpec{{}}, Subject: []BlockSpec{blk(t)}, Want: []string{"balances"},
+				Oracle: func(r, s JobResult) (string, string) {
+					tr := lastTx(s)
+					before, after := obsRecords(r, "nodes"), obsRecords(s, "nodes")
+					d := balanceDelta(r, s)
+					onlyFee := true
+					for who := range d {
+						if who != k && who != "module:fee_collector" {
+							onlyFee = false
+						}
+					}
+					if tr.Code == 0 || fmt.Sprint(before["N1"]) != fmt.Sprint(after["N1"]) || !onlyFee {
+						return "unauthorized-tx-took-effect/signer-other", fmt.Sprintf("%s (the node has no output address; %s is neither operator nor output address): result code %d, node record before %v after %v, balance changes %s", t.String(), k, tr.Code, before["N1"], after["N1"], deltaStr(d))
+					}
+					return "", ""
+				}})
+		}
+	}
 	for ei, env := range envs {
 		if ei == 1 {
 			// legacy environment (features activate later): only messages that exist before activation
